@@ -75,6 +75,7 @@ func (d *Dispenser) NextArg() bool {
 	}
 	if d.cursor < len(d.tokens)-1 &&
 		d.tokens[d.cursor].File == d.tokens[d.cursor+1].File &&
+		d.tokens[d.cursor].imports == d.tokens[d.cursor+1].imports &&
 		d.tokens[d.cursor].Line+d.numLineBreaks(d.cursor) == d.tokens[d.cursor+1].Line {
 		d.cursor++
 		return true
